@@ -729,4 +729,7 @@ func main() {
 
 	// ---------------- phase 4: server/auth encryptionResponse and the AES key-length gate
 	phase4Enc(o)
+
+	// ---------------- phase 5: full offline encryption handshake bot <-> server/auth
+	phase5Handshake(o)
 }
